@@ -285,7 +285,7 @@ func TestProp_Window(t *testing.T) {
 	}
 	rapid.Check(t, func(t *rapid.T) {
 		c := windowCase{}
-		c.Entry = rapid.SampledFrom([]string{"authorize", "fetch-authorized", "fetch-unknown", "fetch-wrapped"}).Draw(t, "entry")
+		c.Entry = rapid.SampledFrom([]string{"authorize", "fetch-authorized", "fetch-unknown", "fetch-wrapped", "fetch-token"}).Draw(t, "entry")
 		w := w0
 		if c.Entry == "fetch-wrapped" {
 			w = wReg
@@ -310,6 +310,14 @@ func TestProp_Window(t *testing.T) {
 		}
 		now := time.Now()
 		info := actor.Info()
+		if c.Entry == "fetch-token" {
+			// a genuine, stored, unused activation token is the request's nonce
+			_, token, terr := registration.CreateServerLedActivationToken(w.Ctx, w.Store, &types.ServerLedRegistrationRequest{}, w.O()...)
+			if terr != nil {
+				t.Fatalf("token: %v", terr)
+			}
+			info.Nonce = vkit.TokenNonce(token)
+		}
 		info.NotBefore = vkit.TS(now.Add(a - nbSkew))
 		info.NotAfter = vkit.TS(now.Add(b - naSkew))
 		switch c.Field {
@@ -372,6 +380,13 @@ func TestProp_Window(t *testing.T) {
 		case "not-before-bad-nanos":
 			info.NotBefore.Nanos = rapid.SampledFrom([]int32{-1, 1_000_000_000, 2_000_000_000}).Draw(t, "nanos")
 		}
+		// the bundle's own id field is the requester's to fill; it has no bearing
+		switch rapid.IntRange(0, 5).Draw(t, "bundleIdField") {
+		case 0:
+			info.Id = "no-such-record"
+		case 1:
+			info.Id = actor.KeyID
+		}
 		if c.Entry == "fetch-wrapped" {
 			seal(info)
 		}
@@ -416,7 +431,7 @@ func TestProp_Window(t *testing.T) {
 		default:
 			var resp *types.FetchNodeCredentialsResponse
 			resp, err = registration.FetchNodeCredentials(w.Ctx, w.Store, req, opts...)
-			if err == nil && (c.Entry == "fetch-authorized" || c.Entry == "fetch-wrapped") && len(resp.GetEncryptedNodeCredentials()) == 0 {
+			if err == nil && (c.Entry == "fetch-authorized" || c.Entry == "fetch-wrapped" || c.Entry == "fetch-token") && len(resp.GetEncryptedNodeCredentials()) == 0 {
 				err = fmt.Errorf("no credentials in response")
 			}
 		}
